@@ -253,7 +253,7 @@ pub const HOSTILE: &[&str] = &[
 pub const TERMS: &[&str] = &["\t ", " \t", "\t \t ", "  \t\t", " \t x ", ". ", ", ", "; ", ": ", "! ", "? ", " - ", " \u{2014} ", " (", ") ", "\n", "\n\n", " ", "  ", "\t", ".", "...", ".\n\n", " \"", "\" ", " \u{201C}", "\u{201D} "];
 
 pub const NUMBERS: &[&str] = &[
-    "1", "0", "2nd", "3rd", "1st", "4th", "11st", "12nd", "13rd", "21th", "101st", "1.5", "1.", ".5", "1e5", "1e999", "1E-3", "0x1F", "0xZZ", "0x",
+    "1", "0", "0th", "0st", "00th", "0.0th", "0TH", "1.0st", "-1st", "2nd", "3rd", "1st", "4th", "11st", "12nd", "13rd", "21th", "101st", "1.5", "1.", ".5", "1e5", "1e999", "1E-3", "0x1F", "0xZZ", "0x",
     "0xFFFFFFFFFFFFFFFF", "0x10000000000000000", "0xde0b6b3a7640000de0b6b3a7640000", "0x52908400098527886E0F7030069857D2E4169EE7", "0x9f86d081884c7d659a2feaa0c55ad015a3bf4f1b2b0b822cd15d6c15b0f00a08",
     "99999999999999999999999999999999999999999", "1e400", "1e-400", "0.000000000000000000000000000000000000000000001", "179769313486231570000000000000000000000000000000000000000000000000000000000000000000000000000000000000000000000000000000000000000000000000000000000000000000000000000000000000000000000000000000000000000000000000000000000000000000000000000000000000000000000000000000000000000000000000000000000000000000000000000000000000", "4294967296", "4294967295th", "65536th", "00000000000000000001st", "1.7976931348623157e308", "2.5e-324",
     "1,000", "1,000.50", "$5", "5$", "$1,000", "\u{20AC}10", "10%", "1980s", "1990's", "80s", "3D", "1stuff", "2ndary", "12:30", "7am", "9 pm", "2pm.", "1/2", "1-2", "1st.", "22ND", "3Rd", "007", "1e", "1e+", "9007199254740993", "18446744073709551616",
